@@ -338,4 +338,317 @@ theorem real_false_same_reference {cfg : Cfg} {test : Test} (ht : TestPure test)
   all_goals (try (have := (lazyScan_spec ht false _ _ _ _ ‹lazyScan _ _ _ _ _ = _›).1))
   all_goals simp_all
 
+/-! ## 5. what no rule changes; what the nested tokenizer must satisfy -/
+
+/-- the part of the state that every rule and every tokenizer call hands back as it found it
+    (containers rewrite `offs`, `blkIndent`, `lineMax`, `listIndent`, `level`, `node` — and restore) -/
+structure Frame (s s' : BState) : Prop where
+  src : s'.src = s.src
+  offs : s'.offs = s.offs
+  lineMax : s'.lineMax = s.lineMax
+  blkIndent : s'.blkIndent = s.blkIndent
+  listIndent : s'.listIndent = s.listIndent
+  level : s'.level = s.level
+  nodeKind : s'.nodeKind = s.nodeKind
+
+theorem Frame.refl (s : BState) : Frame s s := ⟨rfl, rfl, rfl, rfl, rfl, rfl, rfl⟩
+
+theorem Frame.trans {a b c : BState} (h1 : Frame a b) (h2 : Frame b c) : Frame a c :=
+  ⟨h2.src.trans h1.src, h2.offs.trans h1.offs, h2.lineMax.trans h1.lineMax,
+   h2.blkIndent.trans h1.blkIndent, h2.listIndent.trans h1.listIndent, h2.level.trans h1.level,
+   h2.nodeKind.trans h1.nodeKind⟩
+
+/-- `0 ≤ line_indent(line)`, the condition under which the tokenizer runs the chain -/
+def IndentOk (s : BState) : Prop := ∃ i, s.lineIndent s.line = .ok i ∧ 0 ≤ i
+
+/-- what the theorems about the container rules need of the nested tokenizer -/
+structure TokSpec (tok : Tok) : Prop where
+  frame : ∀ s s', tok s = .ok s' → Frame s s'
+  mono : ∀ s s', tok s = .ok s' → s.line ≤ s'.line
+  upper : ∀ s s', tok s = .ok s' → s.line ≤ s.lineMax → s'.line ≤ s.lineMax
+  strict : ∀ s s', tok s = .ok s' → s.line < s.lineMax →
+    (s.isEmpty s.line = true ∨ IndentOk s) → s.line < s'.line
+
+/-- a rule answered `true` in real mode: the frame is intact, `line` moved forward and not beyond
+    `line_max` -/
+structure Advanced (s s' : BState) : Prop where
+  frame : Frame s s'
+  lt : s.line < s'.line
+  le : s'.line ≤ s.lineMax
+
+/-! ## 6. progress of the nine rules -/
+
+theorem hr_advanced {s s' : BState} (h : hrRule s false = .ok (true, s')) (hl : s.line < s.lineMax) :
+    Advanced s s' := by
+  unfold hrRule at h
+  crack h
+  refine ⟨⟨rfl, rfl, rfl, rfl, rfl, rfl, rfl⟩, ?_, ?_⟩ <;> simp [BState.push] <;> omega
+
+theorem heading_advanced {s s' : BState} (h : headingRule s false = .ok (true, s'))
+    (hl : s.line < s.lineMax) : Advanced s s' := by
+  unfold headingRule at h
+  crack h
+  refine ⟨⟨rfl, rfl, rfl, rfl, rfl, rfl, rfl⟩, ?_, ?_⟩ <;> simp [BState.push] <;> omega
+
+theorem codeScan_spec (s : BState) (n last r : Nat) (h : codeScan s n last = .ok r) (hn : last ≤ n) :
+    last ≤ r ∧ (last ≤ s.lineMax → r ≤ s.lineMax) := by
+  fun_induction codeScan s n last <;> simp_all <;> omega
+
+theorem code_advanced {s s' : BState} (h : codeRule s false = .ok (true, s')) (hl : s.line < s.lineMax) :
+    Advanced s s' := by
+  unfold codeRule at h
+  crack h
+  have := codeScan_spec _ _ _ _ ‹codeScan _ _ _ = _› (Nat.le_refl _)
+  refine ⟨⟨rfl, rfl, rfl, rfl, rfl, rfl, rfl⟩, ?_, ?_⟩ <;> simp [BState.push] <;> omega
+
+theorem fenceScan_spec (s : BState) (marker : Char) (len n : Nat) (a : Nat) (b : Bool)
+    (h : fenceScan s marker len n = .ok (a, b)) (hn : n < s.lineMax) :
+    n < a ∧ a ≤ s.lineMax ∧ (b = true → a < s.lineMax) := by
+  fun_induction fenceScan s marker len n <;> simp_all <;> omega
+
+theorem fence_advanced {s s' : BState} (h : fenceRule s false = .ok (true, s')) (hl : s.line < s.lineMax) :
+    Advanced s s' := by
+  unfold fenceRule at h
+  crack h
+  have := fenceScan_spec _ _ _ _ _ _ ‹fenceScan _ _ _ _ = _› hl
+  refine ⟨⟨rfl, rfl, rfl, rfl, rfl, rfl, rfl⟩, ?_, ?_⟩ <;> simp [BState.push] <;> split <;> simp_all <;> omega
+
+theorem paragraph_advanced {test : Test} (ht : TestPure test) {fuel : Nat} {s s' : BState}
+    (h : paragraphRule test fuel s false = .ok (true, s')) (hl : s.line < s.lineMax) :
+    Advanced s s' := by
+  unfold paragraphRule at h
+  crack h
+  obtain ⟨h1, h2, h3, _⟩ := lazyScan_spec ht false _ _ _ _ ‹lazyScan _ _ _ _ _ = _›
+  refine ⟨⟨?_, ?_, ?_, ?_, ?_, ?_, ?_⟩, ?_, ?_⟩ <;> simp [BState.push, h1] <;> omega
+
+theorem lheading_advanced {test : Test} (ht : TestPure test) {fuel : Nat} {s s' : BState}
+    (h : lheadingRule test fuel s false = .ok (true, s')) (hl : s.line < s.lineMax) :
+    Advanced s s' := by
+  unfold lheadingRule at h
+  crack h
+  obtain ⟨h1, h2, h3, h4⟩ := lazyScan_spec ht true _ _ _ _ ‹lazyScan _ _ _ _ _ = _›
+  have := h4 ‹_›
+  refine ⟨⟨?_, ?_, ?_, ?_, ?_, ?_, ?_⟩, ?_, ?_⟩ <;> simp [BState.push, h1] <;> omega
+
+/-- the reference rule: frame and strict progress (the upper bound needs the table invariant:
+    `reference_advanced`) -/
+theorem reference_frame_lt {cfg : Cfg} {test : Test} (ht : TestPure test) {fuel : Nat} {s s' : BState}
+    (h : referenceRule cfg test fuel s false = .ok (true, s')) :
+    Frame s s' ∧ s.line < s'.line := by
+  unfold referenceRule at h
+  crack h
+  obtain ⟨h1, h2, h3, _⟩ := lazyScan_spec ht false _ _ _ _ ‹lazyScan _ _ _ _ _ = _›
+  refine ⟨⟨?_, ?_, ?_, ?_, ?_, ?_, ?_⟩, ?_⟩ <;> simp [h1] <;> omega
+
+/-! ### block quote -/
+
+theorem setOff_ok {s s' : BState} {i : Nat} {o : LineOffset} (h : s.setOff i o = .ok s') :
+    i < s.offs.length ∧ s' = { s with offs := s.offs.set i o } := by
+  unfold BState.setOff at h
+  split at h
+  · simp at h; exact ⟨by assumption, h.symm⟩
+  · cases h
+
+theorem off_ok {s : BState} {i : Nat} {o : LineOffset} (h : s.off i = .ok o) :
+    s.offs[i]? = some o := by
+  unfold BState.off at h
+  split at h
+  · simp at h; simp_all
+  · cases h
+
+theorem restoreOffs_set_comm (j : Nat) (x : LineOffset) :
+    ∀ (add l : List LineOffset) (i : Nat) (r : List LineOffset), j < i →
+      restoreOffs l i add = .ok r → restoreOffs (l.set j x) i add = .ok (r.set j x) := by
+  intro add
+  induction add with
+  | nil => intro l i r _ h; simp [restoreOffs] at h ⊢; rw [h]
+  | cons o add ih =>
+    intro l i r hj h
+    simp only [restoreOffs, List.length_set] at h ⊢
+    split at h
+    · rename_i hi
+      rw [if_pos hi, List.set_comm _ _ (by omega)]
+      exact ih _ _ _ (by omega) h
+    · cases h
+
+/-- everything but `offs` and `line` is the same -/
+structure SameBut (s s' : BState) : Prop where
+  src : s'.src = s.src
+  blkIndent : s'.blkIndent = s.blkIndent
+  lineMax : s'.lineMax = s.lineMax
+  tight : s'.tight = s.tight
+  listIndent : s'.listIndent = s.listIndent
+  level : s'.level = s.level
+  nodeKind : s'.nodeKind = s.nodeKind
+  children : s'.children = s.children
+  refs : s'.refs = s.refs
+  len : s'.offs.length = s.offs.length
+
+theorem SameBut.refl (s : BState) : SameBut s s := ⟨rfl, rfl, rfl, rfl, rfl, rfl, rfl, rfl, rfl, rfl⟩
+theorem SameBut.trans {a b c : BState} (h1 : SameBut a b) (h2 : SameBut b c) : SameBut a c :=
+  ⟨h2.src.trans h1.src, h2.blkIndent.trans h1.blkIndent, h2.lineMax.trans h1.lineMax,
+   h2.tight.trans h1.tight, h2.listIndent.trans h1.listIndent, h2.level.trans h1.level,
+   h2.nodeKind.trans h1.nodeKind, h2.children.trans h1.children, h2.refs.trans h1.refs,
+   h2.len.trans h1.len⟩
+
+theorem sameBut_setOff {s s' : BState} {i : Nat} {o : LineOffset} (h : s.setOff i o = .ok s') :
+    SameBut s s' := by
+  obtain ⟨_, rfl⟩ := setOff_ok h
+  exact ⟨rfl, rfl, rfl, rfl, rfl, rfl, rfl, rfl, rfl, by simp⟩
+
+theorem sameBut_line (s : BState) (n : Nat) : SameBut s { s with line := n } :=
+  ⟨rfl, rfl, rfl, rfl, rfl, rfl, rfl, rfl, rfl, rfl⟩
+
+/-- one entry saved, one entry rewritten, the rest of the scan restorable ⇒ the whole restorable -/
+theorem restore_step {offs offs' : List LineOffset} {m : Nat} {o x : LineOffset} {add : List LineOffset}
+    (ho : offs[m]? = some o) (hlen : offs'.length = offs.length)
+    (h : restoreOffs offs' (m + 1) add = .ok (offs.set m x)) :
+    restoreOffs offs' m (o :: add) = .ok offs := by
+  have hm : m < offs.length := (List.getElem?_eq_some_iff.mp ho).1
+  simp only [restoreOffs]
+  rw [if_pos (by omega)]
+  have := restoreOffs_set_comm m o add offs' (m + 1) _ (by omega) h
+  rw [this, List.set_set]
+  congr 1
+  have := (List.getElem?_eq_some_iff.mp ho).2
+  rw [← this]
+  exact List.set_getElem_self _
+
+/-- the conclusion of `bqScan_spec` -/
+def BqPost (S : BState) (m : Nat) (old : List LineOffset) (n : Nat) (old' : List LineOffset)
+    (S' : BState) : Prop :=
+  SameBut S S' ∧ m ≤ n ∧ (m ≤ S.lineMax → n ≤ S.lineMax) ∧
+    (∀ i, i < m → S'.offs[i]? = S.offs[i]?) ∧
+    ∃ add, old' = old ++ add ∧ restoreOffs S'.offs m add = .ok S.offs
+
+theorem bq_stop (S : BState) (m : Nat) (old : List LineOffset) : BqPost S m old m old S :=
+  ⟨SameBut.refl _, Nat.le_refl _, fun h => h, fun _ _ => rfl, [], by simp, rfl⟩
+
+/-- line `m` is saved and rewritten, the scan goes on behind it -/
+theorem bq_step {S S1 S' : BState} {m n : Nat} {o x : LineOffset} {old old' : List LineOffset}
+    (hset : S.setOff m x = .ok S1) (ho : S.off m = .ok o) (hlt : m < S.lineMax)
+    (ih : BqPost S1 (m + 1) (old ++ [o]) n old' S') : BqPost S m old n old' S' := by
+  obtain ⟨h1, h2, h3, h4, add, h5, h6⟩ := ih
+  have hsb := sameBut_setOff hset
+  obtain ⟨hm, rfl⟩ := setOff_ok hset
+  have ho := off_ok ho
+  refine ⟨hsb.trans h1, by omega, fun _ => h3 (by simp; omega), ?_, o :: add, by simp [h5], ?_⟩
+  · intro i hi
+    rw [h4 i (by omega)]
+    simp [List.getElem?_set]; omega
+  · exact restore_step ho (by simpa using h1.len) h6
+
+/-- the scan stops at line `m`, which is saved and rewritten (a terminating rule under a non-zero
+    block indent) -/
+theorem bq_last {S S1 : BState} {m : Nat} {o x : LineOffset} {old : List LineOffset}
+    (hset : S.setOff m x = .ok S1) (ho : S.off m = .ok o) :
+    BqPost S m old m (old ++ [o]) S1 := by
+  have hsb := sameBut_setOff hset
+  obtain ⟨hm, rfl⟩ := setOff_ok hset
+  have ho := off_ok ho
+  refine ⟨hsb, Nat.le_refl _, fun h => h, ?_, [o], rfl, ?_⟩
+  · intro i hi
+    simp [List.getElem?_set]; omega
+  · exact restore_step (x := x) ho (by simp) (by simp [restoreOffs])
+
+theorem BqPost.of_line {S : BState} {k m n : Nat} {old old' : List LineOffset} {S' : BState}
+    (h : BqPost { S with line := k } m old n old' S') : BqPost S m old n old' S' := by
+  obtain ⟨h1, h2, h3, h4, h5⟩ := h
+  exact ⟨(sameBut_line S k).trans h1, h2, h3, h4, h5⟩
+
+theorem bqScan_spec {test : Test} (ht : TestPure test) :
+    ∀ (fuel : Nat) (S : BState) (m : Nat) (old : List LineOffset) (le : Bool)
+      (n : Nat) (old' : List LineOffset) (S' : BState),
+      bqScan test fuel S m old le = .ok (n, old', S') → BqPost S m old n old' S' := by
+  intro fuel
+  induction fuel with
+  | zero => intro S m old le n old' S' h; simp [bqScan] at h
+  | succ f ih =>
+    intro S m old le n old' S' h
+    simp only [bqScan] at h
+    crack h
+    all_goals (try subst_vars)
+    · exact bq_stop _ _ _
+    · exact bq_stop _ _ _
+    · exact bq_step ‹BState.setOff _ _ _ = _› ‹BState.off _ _ = _› (by omega) (ih _ _ _ _ _ _ _ h)
+    · exact bq_stop _ _ _
+    · -- a terminating rule, `blk_indent ≠ 0`
+      have e := ht _ _ ‹test _ = _›
+      simp only [e] at *
+      exact BqPost.of_line (bq_last ‹BState.setOff _ _ _ = _› ‹BState.off _ _ = _›)
+    · have e := ht _ _ ‹test _ = _›
+      rw [e]
+      exact BqPost.of_line (bq_stop _ _ _)
+    · have e := ht _ _ ‹test _ = _›
+      simp only [e] at *
+      exact BqPost.of_line
+        (bq_step ‹BState.setOff _ _ _ = _› ‹BState.off _ _ = _› (by simp; omega) (ih _ _ _ _ _ _ _ h))
+
+/-- the first line of a quote (`>` at a non-negative indent) is inside it: the scan gets past it
+    and leaves a non-negative `indent_nonspace` there -/
+theorem bqScan_first {test : Test} (ht : TestPure test) {fuel : Nat} {S : BState} {m : Nat}
+    {old : List LineOffset} {le : Bool} {n : Nat} {old' : List LineOffset} {S' : BState}
+    (h : bqScan test fuel S m old le = .ok (n, old', S')) (hlt : m < S.lineMax)
+    {i : Int} (hi : S.lineIndent m = .ok i) (hi0 : 0 ≤ i) {line : List Char}
+    (hline : S.getLine m = .ok line) (hhead : line.head? = some '>') :
+    m < n ∧ ∃ o, S'.offs[m]? = some o ∧ 0 ≤ o.indentNonspace := by
+  cases fuel with
+  | zero => simp [bqScan] at h
+  | succ f =>
+    cases line with
+    | nil => simp at hhead
+    | cons c rest =>
+      simp at hhead
+      subst hhead
+      have hno : ¬ (i < 0) := by omega
+      simp only [bqScan, hi, hline, ok_bind, hlt, not_true_eq_false, ↓reduceIte, hno, decide_false,
+        Bool.false_eq_true, not_false_eq_true, and_self] at h
+      crack h
+      obtain ⟨hm, rfl⟩ := setOff_ok ‹BState.setOff _ _ _ = _›
+      obtain ⟨_, h2, _, h4, _⟩ := bqScan_spec ht _ _ _ _ _ _ _ _ h
+      refine ⟨by omega, ?_⟩
+      rw [h4 m (by omega)]
+      simp [List.getElem?_set, hm]
+
+theorem lineIndent_of_off {s : BState} {m : Nat} {o : LineOffset} (h : s.offs[m]? = some o) :
+    s.lineIndent m = .ok (o.indentNonspace - (s.blkIndent : Int)) := by
+  simp [BState.lineIndent, Lines.lineIndent, h, liftL]
+
+theorem blockquote_advanced {tok : Tok} {test : Test} (hk : TokSpec tok) (ht : TestPure test)
+    {fuel : Nat} {s s' : BState} (h : blockquoteRule tok test fuel s false = .ok (true, s'))
+    (hl : s.line < s.lineMax) (hi : IndentOk s) : Advanced s s' := by
+  obtain ⟨i, hi, hi0⟩ := hi
+  unfold blockquoteRule at h
+  crack h
+  rename_i ind hind _ line hline hhead scan hscan s2 htok lvl hlvl offs hoffs e he r hr
+  have hhead : line.head? = some '>' := by simpa using hhead
+  obtain ⟨n, old', S'⟩ := scan
+  obtain ⟨hsb, hmn, hup, _, add, hadd, hrest⟩ := bqScan_spec ht _ _ _ _ _ _ _ _ hscan
+  obtain ⟨hlt, o, ho, ho0⟩ := bqScan_first ht hscan hl hi hi0 hline hhead
+  simp only at htok hlvl hoffs he hr ⊢
+  have hfr := hk.frame _ _ htok
+  have hstrict := hk.strict _ _ htok (by simpa using hlt)
+    (Or.inr ⟨_, lineIndent_of_off ho, by simpa using ho0⟩)
+  have hupper := hk.upper _ _ htok (by simpa using hmn)
+  simp only at hstrict hupper
+  obtain ⟨_, rfl⟩ := psub_ok hlvl
+  simp only [List.nil_append] at hadd
+  subst hadd
+  rw [hfr.offs] at hoffs
+  simp only at hoffs
+  rw [hrest] at hoffs
+  cases hoffs
+  refine ⟨⟨?_, ?_, ?_, ?_, ?_, ?_, ?_⟩, ?_, ?_⟩
+  · simp [hfr.src, hsb.src]
+  · rfl
+  · simp [hsb.lineMax]
+  · simp [hsb.blkIndent]
+  · simp [hfr.listIndent, hsb.listIndent]
+  · simp [hfr.level, hsb.level]
+  · simp [hsb.nodeKind]
+  · simpa using hstrict
+  · have := hup (by omega)
+    simp at hupper ⊢
+    omega
+
 end MdIt.Block
